@@ -99,7 +99,7 @@ Definition delete_sub_link (b : lmap) (s : subport) : lmap * res :=
       match shift_out (S (length (fwd b1))) b1 s with
       | None => (b1, EFuel)
       | Some b2 =>
-          match shift_in (S (length (fwd b2))) b2 t with
+          match shift_in (S (length (bck b2))) b2 t with
           | None => (b2, EFuel)
           | Some b3 => (b3, Ok)
           end
